@@ -52,67 +52,67 @@ class AdictModel:
     def getattr(ex, o, name):
         if name.startswith('__'):
             return NOTHANDLED
-        return o.f['items'].get(name)
+        return o.f['kv'].get(name)
 
     @staticmethod
     def m_get(ex, o, k, default=None):
-        return ex.dict_get(o.f['items'], k, default=default)
+        return ex.dict_get(o.f['kv'], k, default=default)
 
     @staticmethod
     def op_getitem(ex, o, k):
-        return ex.dict_get(o.f['items'], k, raise_=True)
+        return ex.dict_get(o.f['kv'], k, raise_=True)
 
     @staticmethod
     def op_setitem(ex, o, k, v):
-        ex.setitem(o.f['items'], k, v)
+        ex.setitem(o.f['kv'], k, v)
 
     @staticmethod
     def op_contains(ex, o, k):
-        return ex.contains(o.f['items'], k)
+        return ex.contains(o.f['kv'], k)
 
     @staticmethod
     def op_iter(ex, o):
-        return list(o.f['items'])
+        return list(o.f['kv'])
 
     @staticmethod
     def op_len(ex, o):
-        return len(o.f['items'])
+        return len(o.f['kv'])
 
     @staticmethod
     def m_items(ex, o):
-        return View('items', o.f['items'])
+        return View('items', o.f['kv'])
 
     @staticmethod
     def m_values(ex, o):
-        return View('values', o.f['items'])
+        return View('values', o.f['kv'])
 
     @staticmethod
     def m_keys(ex, o):
-        return View('keys', o.f['items'])
+        return View('keys', o.f['kv'])
 
     @staticmethod
     def m_copy(ex, o):
-        return Obj(o.cls, items=dict(o.f['items']))
+        return Obj(o.cls, kv=dict(o.f['kv']))
 
     @staticmethod
     def m_set(ex, o, name, value=None):
         if ex.truth(ex.isnone(value)) if not isinstance(ex.isnone(value), bool) else ex.isnone(value):
-            o.f['items'].pop(name, None)
+            o.f['kv'].pop(name, None)
         else:
-            o.f['items'][name] = value
+            o.f['kv'][name] = value
         return o
 
     @staticmethod
     def op_eq(ex, o, other):
-        if isinstance(other, Obj) and 'items' in other.f:
-            return ex.eq(o.f['items'], other.f['items'])
+        if isinstance(other, Obj) and 'kv' in other.f:
+            return ex.eq(o.f['kv'], other.f['kv'])
         if isinstance(other, dict):
-            return ex.eq(o.f['items'], other)
+            return ex.eq(o.f['kv'], other)
         return False
 
 
 def adict(**items):
-    return Obj('adict', items=dict(items))
+    return Obj('adict', kv=dict(items))
 
 
 def set_attr_adict(ex):
@@ -122,7 +122,7 @@ def set_attr_adict(ex):
 
     def setattr_(o, name, v):
         if isinstance(o, Obj) and o.cls == 'adict':
-            o.f['items'][name] = v
+            o.f['kv'][name] = v
             return
         return orig(o, name, v)
     ex.setattr = setattr_
